@@ -182,23 +182,252 @@ def install_list_repeat(I):
     I.seq_binop = seq_binop
 
 
-class GenVC(VC):
-    """VC on a generator function: side obligations (loop invariants) also get a concrete witness."""
+def install_extend(I):
+    """list.extend(other) / `lst += other` for two lists of symbolic length (dependency spec of list.extend), stated
+    position-wise:  new[j] = old[j] for j < n,  new[j] = other[j - n] for n <= j < n + m."""
+    orig = I.call_method
+
+    def call_method(st, recv, name, args, kwargs, node=None):
+        if name == "extend" and isinstance(recv, Ref) and len(args) == 1 and isinstance(args[0], Ref):
+            h, hs = st.get(recv), st.get(args[0])
+            if isinstance(h, HList) and isinstance(hs, HList) and not h.concrete and not hs.concrete and h.k == "obj" and hs.k == "obj":
+                st.trace.append(Event("write", f"{h.tag}.extend", [recv, args[0]], lineno=getattr(node, "lineno", None), held=I.held_locks(st)))
+                st.written.add((recv.id, "*"))
+                na = z3.Const(fresh_name("ext"), ArrObj)
+                j = z3.Int(fresh_name("j"))
+                st.assume(z3.ForAll([j], z3.Implies(z3.And(0 <= j, j < h.n), z3.Select(na, j) == z3.Select(h.arr, j))))
+                st.assume(z3.ForAll([j], z3.Implies(z3.And(h.n <= j, j < h.n + hs.n), z3.Select(na, j) == z3.Select(hs.arr, j - h.n))))
+                h.arr, h.n = na, h.n + hs.n
+                return [(st, None)]
+        return orig(st, recv, name, args, kwargs, node)
+
+    I.call_method = call_method
+
+
+def loops_of(fn_node):
+    return [n for n in ast.walk(fn_node) if isinstance(n, (ast.For, ast.While, ast.AsyncFor))]
+
+
+def loop_assigned(node):
+    assigned = {x.id for x in ast.walk(node) if isinstance(x, ast.Name) and isinstance(x.ctx, ast.Store)}
+    tnames = {x.id for x in ast.walk(node.target) if isinstance(x, ast.Name)} if hasattr(node, "target") else set()
+    return assigned - tnames
+
+
+MUTATORS = {"add", "append", "extend", "insert", "pop", "remove", "clear", "update", "discard", "reverse", "sort", "setdefault", "popitem"}
+
+
+def loop_mutated(node):
+    """locals whose referent is written in the loop (mutating method call / item store) without being re-bound"""
+    out = set()
+    for x in ast.walk(node):
+        if isinstance(x, ast.Call) and isinstance(x.func, ast.Attribute) and isinstance(x.func.value, ast.Name) and x.func.attr in MUTATORS:
+            out.add(x.func.value.id)
+        if isinstance(x, ast.Subscript) and isinstance(x.ctx, (ast.Store, ast.Del)) and isinstance(x.value, ast.Name):
+            out.add(x.value.id)
+    return out - loop_assigned(node)
+
+
+UNBOUND = object()
+
+
+def value_role(st, v):
+    """coarse kind of a local's value at loop entry"""
+    if v is UNBOUND:
+        return "unbound"
+    if isinstance(v, bool) or (isinstance(v, Sym) and v.k == "bool"):
+        return "bool"
+    if isinstance(v, int) or (isinstance(v, Sym) and v.k == "int"):
+        return "int"
+    if isinstance(v, Ref):
+        h = st.get(v)
+        return {HList: "list", HSet: "set", HDict: "dict"}.get(type(h), "heap")
+    return "obj"
+
+
+def install_auto_havoc(I):
+    """LoopSpec.havoc may be a callable (st, fr, node, assigned) -> {name: factory}; the loop-carried locals are
+    found from the AST of the real loop (a renamed local does not break the contract)."""
+    orig = I.havoc
+
+    def havoc(st, fr, spec, node):
+        if callable(spec.havoc):
+            m = spec.havoc(st, fr, node, loop_assigned(node))
+            return orig(st, fr, LoopSpec(spec.invariant, m, spec.heap, spec.name, spec.variant), node)
+        return orig(st, fr, spec, node)
+
+    I.havoc = havoc
+
+
+def gen_havoc(mode, alias_yielded=False, extra=None):
+    """Havoc of a generator loop: every local assigned in the loop gets a fresh value of the kind it has at loop
+    entry (int/bool/obj; list -> fresh abstract list; set -> fresh abstract set; unbound -> dead), and the
+    ghost sequence of yields is replaced by an arbitrary one (to be constrained by the invariant).
+    alias_yielded: a local that is unbound at entry and is yielded by the loop refers, at the head of a later
+    iteration, to the row yielded by the previous one: modelled as an arbitrary already-yielded list."""
+
+    def hv(st, fr, node, assigned):
+        frame = st.frames[fr.fid]
+        snaps = ()
+        out = {}
+        yielded_names = {y.value.id for y in ast.walk(node) if isinstance(y, ast.Yield) and isinstance(y.value, ast.Name)}
+        for name in sorted(assigned):
+            role = value_role(st, frame.get(name, UNBOUND))
+            if role in ("int", "bool", "obj"):
+                out[name] = role
+            elif role == "list":
+                out[name] = lambda s, name=name: s.alloc(HList(arr=z3.Const(fresh_name(name + "_arr"), ArrObj), n=z3.Int(fresh_name(name + "_n")), k="obj"))
+            elif role == "set":
+                out[name] = lambda s, name=name: s.alloc(HSet(dom=z3.Const(fresh_name(name + "_dom"), z3.ArraySort(Obj, z3.BoolSort())),
+                                                              size=z3.Int(fresh_name(name + "_size")), kk="obj"))
+            elif role == "unbound":
+                if alias_yielded and mode == "rows" and name in yielded_names:
+                    prev = st.alloc(HList(arr=z3.Const(fresh_name("prev_row"), ArrObj), n=z3.Int(fresh_name("prev_n")), k="obj"))
+                    h = st.get(prev)
+                    snaps = snaps + ((prev, h.arr, h.n),)
+                    out[name] = lambda s, prev=prev: prev
+                else:
+                    out[name] = lambda s: None
+            else:
+                raise Unsupported(f"loop-carried local {name!r} of kind {role}", node)
+        for name in sorted(loop_mutated(node)):
+            v = frame.get(name, UNBOUND)
+            role = value_role(st, v)
+            if role == "set" and v.id in st.allocated:
+                h = st.get(v)
+                h.items, h.dom, h.size, h.kk = None, z3.Const(fresh_name(name + "_dom"), z3.ArraySort(Obj, z3.BoolSort())), z3.Int(fresh_name(name + "_size")), "obj"
+            elif role == "list" and v.id in st.allocated:
+                h = st.get(v)
+                h.items, h.arr, h.n, h.k = None, z3.Const(fresh_name(name + "_arr"), ArrObj), z3.Int(fresh_name(name + "_n")), "obj"
+            elif role in ("set", "list"):
+                # the loop writes an object the function did not allocate: a frame violation on every path through the loop
+                st.written.add((v.id, "*"))
+            else:
+                raise Unsupported(f"loop writes the referent of {name!r} ({role})", node)
+        if mode is not None:
+            st.ghost = dict(st.ghost)
+            st.ghost["Y"] = Y.havoc(mode, snaps=snaps)
+        if extra is not None:
+            extra(st, fr, node, out)
+        return out
+
+    return hv
+
+
+def carried(ctx, role, expect=None):
+    """current values of the locals of the given role (their value at loop entry) that the loop re-binds or
+    writes; if there is none, the locals of that role that the function allocated before the loop"""
+    node = None
+    for ln in loops_of(ctx.fr.fn_node):
+        if ctx.interp.__dict__.get("_loop_entry", {}).get((ctx.fr.fid, id(ln))) is ctx.entry:
+            node = ln
+    if node is None:
+        raise Unsupported("loop node of the invariant context not found")
+    eframe = ctx.entry.frames[ctx.fr.fid]
+    names = [n for n in sorted(loop_assigned(node) | loop_mutated(node)) if value_role(ctx.entry, eframe.get(n, UNBOUND)) == role]
+    if not names and role in ("list", "set"):
+        names = [n for n, v in sorted(eframe.items()) if value_role(ctx.entry, v) == role and v.id in ctx.entry.allocated]
+    if expect is not None and len(names) != expect:
+        raise Unsupported(f"expected {expect} loop-carried local(s) of kind {role}, found {names}")
+    return [ctx.local(n) for n in names]
+
+
+import json
+import os
+import re
+
+_KNOWN = None
+
+
+def known_keys():
+    """finding keys registered for C22 (known_findings.d/c22.json): a native sweep does not report an input that
+    fails only in an already known way"""
+    global _KNOWN
+    if _KNOWN is None:
+        _KNOWN = set()
+        p = os.path.join(os.path.dirname(os.path.dirname(os.path.abspath(__file__))), "known_findings.d", "c22.json")
+        try:
+            for f in json.load(open(p)).get("findings", []):
+                _KNOWN.add(f.get("key"))
+        except OSError:
+            pass
+    return _KNOWN
+
+
+class Native:
+    """Native side of a contract: cases() enumerates small concrete inputs (json), run_case(w) runs the REAL
+    function and the executable specification -> (violated, detail), case_key(w) names the failing input."""
+
+    def cases(self):
+        return ()
+
+    def run_case(self, w):
+        return (None, "no native oracle")
+
+    def case_key(self, w):
+        return "other:" + json.dumps(w, sort_keys=True, default=str)
+
+    def sweep(self):
+        """first small input on which the real function violates the specification in a not yet known way"""
+        if not hasattr(self, "_sweep"):
+            self._sweep = None
+            for w in self.cases():
+                try:
+                    v, d = self.run_case(w)
+                except Exception as ex:  # noqa
+                    v, d = True, f"oracle crashed: {type(ex).__name__}: {ex}"
+                if v and self.case_key(w) not in known_keys():
+                    self._sweep = (w, d)
+                    break
+        return self._sweep
+
+    def replay(self, w):
+        v, d = self.run_case(w)
+        if v:
+            return v, d
+        sw = self.sweep()
+        if sw is not None:
+            return True, sw[1] + " [the solver's counterexample state is not itself a failing input; failing input found by the small-input sweep]"
+        return v, d
+
+    def finding_key(self, res):
+        return self.case_key(res.witness) if isinstance(res.witness, dict) else "no-witness"
+
+
+class GenVC(Native, VC):
+    """VC whose side obligations (loop invariants) also get a concrete witness, and whose solver-undecided
+    obligations are tried on the real function (small-input sweep): a failing input turns `unknown` into
+    `refuted` with that input as the witness."""
     prop = "C22"
-    timeout_quick = 20000
+    timeout_quick = 8000
     timeout_thorough = 60000
+    _pre = None
+
+    inv_labels = ()
 
     def discharge(self, name, pc, cond, timeout, seed, pre, out):
-        r = super().discharge(name, pc, cond, timeout, seed, pre if pre is not None else self._pre, out)
+        m = re.match(r"^(.*)\.inv_(entry|preserved)\[(\d+)\]@\d+$", name)
+        if m and int(m.group(3)) < len(self.inv_labels):
+            # stable obligation names: no line numbers, the invariant's label instead of its index
+            name = f"{m.group(1)}.inv_{m.group(2)}.{self.inv_labels[int(m.group(3))]}"
+        r = VC.discharge(self, name, pc, cond, timeout, seed, pre if pre is not None else self._pre, out)
+        if r.status == "unknown":
+            sw = self.sweep()
+            if sw is not None:
+                return Res(name, "refuted", "native-sweep", r.seconds, f"solver undecided ({r.detail[:80]}); the real function fails on {sw[0]}: {sw[1]}"[:600], self.kind, sw[0])
+        elif r.status == "refuted" and isinstance(r.witness, dict) and "concretize_error" not in r.witness:
+            v, _ = self.run_case(r.witness)
+            if not v and self.sweep() is not None:
+                r.witness = self.sweep()[0]
         return r
 
     def paths(self, I):
-        pre, outs = super().paths(I)
+        pre, outs = VC.paths(self, I)
         self._pre = pre
         return pre, outs
 
-    def finding_key(self, res):
-        return "other:" + str(res.witness)
+    def replay(self, w):
+        return Native.replay(self, w)
 
 
 # ======================================================================================
@@ -225,6 +454,7 @@ def spec_slice(items, s, fill):
 class Slice(GenVC):
     """sync_do_slice(value, slices, fill_with), slices >= 1, value a finite collection."""
     target = "jinja2.filters:sync_do_slice"
+    inv_labels = ("offset", "start_closed_form", "rows_so_far", "row_sizes", "row_items", "row_fill", "rows_frozen_and_fresh")
 
     def __init__(self):
         super().__init__("C22", "C22.sync_do_slice")
@@ -243,6 +473,7 @@ class Slice(GenVC):
 
     def configure(self, I):
         install_yield_ghost(I, "rows")
+        install_auto_havoc(I)
         install_range(I)
         install_divmod(I)
         c = self
@@ -250,7 +481,7 @@ class Slice(GenVC):
         def inv(ctx):
             st, k = ctx.st, ctx.k
             y = st.ghost["Y"]
-            off = ctx.term("offset", "int")
+            off = to_term(carried(ctx, "int", 1)[0], "int")  # the one loop-carried integer (`offset`)
             i, j = z3.Int(fresh_name("i")), z3.Int(fresh_name("j"))
             row = z3.Select(y.rows, i)
             return [
@@ -263,17 +494,7 @@ class Slice(GenVC):
                 rows_frozen(st) and yielded_fresh(st, c.initial),
             ]
 
-        def heap(st, local):
-            y = st.ghost.get("Y") or Y.empty("rows")
-            st.ghost = dict(st.ghost)
-            # tmp still refers to the row yielded by the previous iteration: an arbitrary, already yielded list
-            prev = st.alloc(HList(arr=z3.Const(fresh_name("prev_row"), ArrObj), n=z3.Int(fresh_name("prev_n")), k="obj"))
-            h = st.get(prev)
-            st.ghost["Y"] = Y.havoc("rows", snaps=((prev, h.arr, h.n),))
-            local["tmp"] = prev
-
-        I.loops[("sync_do_slice", 0)] = LoopSpec(inv, havoc={"start": "int", "offset": "int", "end": "int", "tmp": lambda st: None},
-                                                 heap=heap, name="slice_loop")
+        I.loops[("sync_do_slice", 0)] = LoopSpec(inv, havoc=gen_havoc("rows", alias_yielded=True), name="slice_loop")
 
     def setup(self, I, st):
         self.value = A.alist(st, "value", "obj")
@@ -286,7 +507,7 @@ class Slice(GenVC):
         # S: prefix sums of the documented sizes (definition by recursion; conservative)
         self.S = z3.Function("S_start", I_, I_)
         i = z3.Int("si")
-        st.assume(self.S(0) == 0, z3.ForAll([i], z3.Implies(i >= 0, self.S(i + 1) == self.S(i) + self.L(i))))
+        st.assume(self.S(0) == 0, z3.ForAll([i], z3.Implies(z3.And(0 <= i, i < self.s), self.S(i + 1) == self.S(i) + self.L(i))))
         st.ghost["Y"] = Y.empty("rows")
         self.initial = {self.value.id}
         return [self.value, Sym(self.s, "int"), self.fill], {}
@@ -343,27 +564,353 @@ class Slice(GenVC):
         fill = None if model_value(model, self.fill.t == NONE) is True else "x"
         return {"fn": "slice", "n": n, "slices": s, "fill": fill}
 
-    def replay(self, w):
-        return replay_slice(w)
+    def cases(self):
+        for n in range(0, 10):
+            for sl in range(1, 7):
+                for fill in (None, "x"):
+                    yield {"fn": "slice", "n": n, "slices": sl, "fill": fill}
 
-    def finding_key(self, res):
-        w = res.witness or {}
+    def run_case(self, w):
+        n, sl, fill = w["n"], w["slices"], w["fill"]
+        items = list(range(n))
+        arg = list(items)
+        try:
+            got = [list(r) for r in list(F.sync_do_slice(arg, sl, fill))]  # rows are read after the generator is exhausted
+        except Exception as ex:
+            return (True, f"range({n})|slice({sl}, {fill!r}) raised {type(ex).__name__}: {ex}")
+        want = spec_slice(items, sl, fill)
+        return (got != want or arg != items, f"range({n})|slice({sl}, {fill!r}): real={got} spec={want}")
+
+    def case_key(self, w):
         if w.get("fill") is not None and w.get("n", 1) % max(1, w.get("slices", 1)) == 0:
-            return "fill_when_slices_divides_length"
-        return "other:" + str(w)
+            # every failing input of this shape fails in the same way only if nothing else is wrong with it
+            items = list(range(w["n"]))
+            try:
+                got = [list(r) for r in F.sync_do_slice(list(items), w["slices"], w["fill"])]
+            except Exception:
+                got = None
+            if got == [r + [w["fill"]] for r in spec_slice(items, w["slices"], None)]:
+                return "fill_when_slices_divides_length"
+        return Native.case_key(self, w)
 
 
-def replay_slice(w):
-    n, s, fill = w["n"], w["slices"], w["fill"]
-    items = list(range(n))
-    arg = list(items)
-    try:
-        got = [list(r) for r in F.sync_do_slice(arg, s, fill)]
-    except Exception as ex:
-        return (True, f"slice({items}, {s}, {fill!r}) raised {type(ex).__name__}: {ex}")
-    want = spec_slice(items, s, fill)
-    bad = got != want or arg != items
-    return (bad, f"range({n})|slice({s}, {fill!r}): real={got} spec={want}")
+# ======================================================================================
+# batch
+# ======================================================================================
+
+def spec_batch(items, c, fill):
+    """The statement, executable: full rows of `linecount`; the last row is padded to `linecount` iff a fill
+    value is given; concatenation = input."""
+    rows = [list(items[i:i + c]) for i in range(0, len(items), c)]
+    if rows and fill is not None:
+        rows[-1] += [fill] * (c - len(rows[-1]))
+    return rows
+
+
+class Batch(GenVC):
+    """do_batch(value, linecount, fill_with), linecount >= 1.  M(i) stands for i * linecount (defined by
+    recursion M(0) = 0, M(i+1) = M(i) + linecount, which keeps the VCs linear)."""
+    target = "jinja2.filters:do_batch"
+    inv_labels = ("bounds", "current_row_nonempty", "items_consumed", "full_row_sizes", "full_row_items", "current_row_items", "rows_frozen_and_fresh")
+
+    def __init__(self):
+        super().__init__("C22", "C22.do_batch")
+
+    def configure(self, I):
+        install_yield_ghost(I, "rows")
+        install_auto_havoc(I)
+        install_list_repeat(I)
+        install_extend(I)
+        c = self
+
+        def inv(ctx):
+            st, k = ctx.st, ctx.k
+            y = st.ghost["Y"]
+            tmp = carried(ctx, "list", 1)[0]
+            tarr, tn = cur_list(st, tmp)
+            i, j = z3.Int(fresh_name("i")), z3.Int(fresh_name("j"))
+            return [
+                z3.And(0 <= y.n, y.n <= k, 0 <= tn, tn <= c.c),
+                z3.If(k == 0, z3.And(tn == 0, y.n == 0), tn >= 1),
+                k == c.M(y.n) + tn,
+                z3.ForAll([i], z3.Implies(z3.And(0 <= i, i < y.n), z3.Select(y.lens, i) == c.c)),
+                z3.ForAll([i, j], z3.Implies(z3.And(0 <= i, i < y.n, 0 <= j, j < c.c),
+                                             z3.Select(z3.Select(y.rows, i), j) == z3.Select(c.v, c.M(i) + j))),
+                z3.ForAll([j], z3.Implies(z3.And(0 <= j, j < tn), z3.Select(tarr, j) == z3.Select(c.v, c.M(y.n) + j))),
+                rows_frozen(st) and yielded_fresh(st, c.initial) and tmp.id in st.allocated
+                and tmp.id not in {r.id for r, _, _ in y.snaps},
+            ]
+
+        I.loops[("do_batch", 0)] = LoopSpec(inv, havoc=gen_havoc("rows"), name="batch_loop")
+
+    def setup(self, I, st):
+        self.value = A.alist(st, "value", "obj")
+        hv = st.get(self.value)
+        self.v, self.n = hv.arr, hv.n
+        self.c = z3.Int("linecount")
+        self.fill = sym("fill_with", "obj")
+        st.assume(self.c >= 1)
+        self.M = z3.Function("M_times_linecount", I_, I_)
+        i = z3.Int("mi")
+        st.assume(self.M(0) == 0, z3.ForAll([i], z3.Implies(z3.And(0 <= i, i <= self.n), self.M(i + 1) == self.M(i) + self.c)))
+        st.ghost["Y"] = Y.empty("rows")
+        self.initial = {self.value.id}
+        return [self.value, Sym(self.c, "int"), self.fill], {}
+
+    def p_total(self, pre, out):
+        return out.returned
+
+    def p_count(self, pre, out):
+        """ceil(n / linecount) rows"""
+        if out.raised:
+            return None
+        cnt = out.st.ghost["Y"].n
+        return z3.If(self.n == 0, cnt == 0, z3.And(cnt >= 1, self.M(cnt - 1) < self.n, self.n <= self.M(cnt)))
+
+    def p_full_rows(self, pre, out):
+        """every row but the last is v[i*c .. i*c + c)"""
+        if out.raised:
+            return None
+        y = out.st.ghost["Y"]
+        i, j = z3.Int(fresh_name("i")), z3.Int(fresh_name("j"))
+        return z3.And(
+            z3.ForAll([i], z3.Implies(z3.And(0 <= i, i < y.n - 1), z3.Select(y.lens, i) == self.c)),
+            z3.ForAll([i, j], z3.Implies(z3.And(0 <= i, i < y.n - 1, 0 <= j, j < self.c),
+                                         z3.Select(z3.Select(y.rows, i), j) == z3.Select(self.v, self.M(i) + j))))
+
+    def p_last_row(self, pre, out):
+        """the last row holds the remaining items in order, padded to linecount iff a fill value is given"""
+        if out.raised:
+            return None
+        y = out.st.ghost["Y"]
+        last = y.n - 1
+        base = self.n - self.M(last)
+        row, ln = z3.Select(y.rows, last), z3.Select(y.lens, last)
+        j = z3.Int(fresh_name("j"))
+        return z3.Implies(y.n >= 1, z3.And(
+            1 <= base, base <= self.c,
+            z3.ForAll([j], z3.Implies(z3.And(0 <= j, j < base), z3.Select(row, j) == z3.Select(self.v, self.M(last) + j))),
+            z3.If(self.fill.t != NONE,
+                  z3.And(ln == self.c, z3.ForAll([j], z3.Implies(z3.And(base <= j, j < self.c), z3.Select(row, j) == self.fill.t))),
+                  ln == base)))
+
+    def p_frame(self, pre, out):
+        return frame_ok(out, self.initial) and rows_frozen(out.st) and yielded_fresh(out.st, self.initial)
+
+    posts = [("raises_nothing", p_total), ("row_count", p_count), ("full_rows_in_order", p_full_rows),
+             ("last_row_and_padding", p_last_row), ("frame", p_frame)]
+
+    def concretize(self, model, pre, out):
+        n = max(0, min(40, model_value(model, self.n)))
+        c = max(1, min(40, model_value(model, self.c)))
+        fill = None if model_value(model, self.fill.t == NONE) is True else "x"
+        return {"fn": "batch", "n": n, "linecount": c, "fill": fill}
+
+    def cases(self):
+        for n in range(0, 10):
+            for c in range(1, 6):
+                for fill in (None, "x"):
+                    yield {"fn": "batch", "n": n, "linecount": c, "fill": fill}
+
+    def run_case(self, w):
+        n, c, fill = w["n"], w["linecount"], w["fill"]
+        items = list(range(n))
+        arg = list(items)
+        try:
+            got = [list(r) for r in list(F.do_batch(arg, c, fill))]  # rows are read after the generator is exhausted
+        except Exception as ex:
+            return (True, f"range({n})|batch({c}, {fill!r}) raised {type(ex).__name__}: {ex}")
+        want = spec_batch(items, c, fill)
+        return (got != want or arg != items, f"range({n})|batch({c}, {fill!r}): real={got} spec={want}")
+
+
+# ======================================================================================
+# unique
+# ======================================================================================
+
+def spec_unique(items, key):
+    """yields item i iff no earlier item has the same key; order preserved"""
+    return [x for i, x in enumerate(items) if all(key(y) != key(x) for y in items[:i])]
+
+
+class Getter:
+    """Abstract key function returned by make_attrgetter / make_multi_attrgetter (their own contracts are separate
+    obligations): applying it to x gives fn(x)."""
+
+    def __init__(self, maker, bound, fn):
+        self.maker, self.bound, self.fn = maker, bound, fn
+
+    def __repr__(self):
+        return f"<getter {self.maker} {sorted(self.bound)}>"
+
+
+def install_getters(I, key_fn=None):
+    """make_attrgetter / make_multi_attrgetter as abstract callees: record the call, return an abstract key
+    function (key_fn if given, else a fresh uninterpreted function)."""
+    I._getters = []
+
+    def mk(qual, params):
+        def h(I_, st, args, kwargs, node):
+            bound = dict(zip(params, args))
+            for k, v in kwargs.items():
+                if k in bound or k not in params:
+                    return [(st, Raised(Exc(TypeError, (f"bad argument {k}",), origin=getattr(node, "lineno", None))))]
+                bound[k] = v
+            g = Getter(qual, bound, key_fn if key_fn is not None else z3.Function(fresh_name("getter"), Obj, Obj))
+            I._getters.append(g)
+            st.trace.append(Event("call", qual, args, kwargs, g, lineno=getattr(node, "lineno", None)))
+            I.specs[("fn", id(g))] = lambda I2, s, a, kw, n, g=g: [(s, Sym(g.fn(to_term(a[0], "obj")), "obj"))]
+            return [(st, g)]
+        return h
+
+    I.specs["jinja2.filters:make_attrgetter"] = mk("make_attrgetter", ["environment", "attribute", "postprocess", "default"])
+    I.specs["jinja2.filters:make_multi_attrgetter"] = mk("make_multi_attrgetter", ["environment", "attribute", "postprocess"])
+
+
+def same_(a, b):
+    return same(a, b)
+
+
+def getter_ok(g, env, attribute, case_sensitive=None, default=None, postprocess="by_case"):
+    """the getter was made for (environment, attribute) with postprocess = ignore_case iff not case_sensitive
+    (z3 Bool / bool over the path), and the given default"""
+    b = g.bound
+    if not same_(b.get("environment"), env) or not same_(b.get("attribute"), attribute):
+        return False
+    d = b.get("default", None)
+    if not same_(d, default):
+        return False
+    pp = b.get("postprocess", None)
+    if postprocess == "by_case":
+        cs = to_term(case_sensitive, "bool")
+        if pp is F.ignore_case:
+            return z3.Not(cs)
+        if pp is None:
+            return cs
+        return False
+    return pp is postprocess
+
+
+def set_dom(st, ref):
+    h = st.get(ref)
+    if h.items is not None:
+        dom = z3.K(Obj, z3.BoolVal(False))
+        for x in h.items:
+            dom = z3.Store(dom, to_term(x, "obj"), z3.BoolVal(True))
+        return dom
+    return h.dom
+
+
+class Unique(GenVC):
+    """sync_do_unique(environment, value, case_sensitive, attribute).
+    first(x): index of the first item with key x;  rank(i): number of first occurrences among items 0..i-1
+    (both defined from the input only; conservative definitions)."""
+    target = "jinja2.filters:sync_do_unique"
+    inv_labels = ("seen_is_keys_so_far", "yield_count", "yields_are_first_occurrences")
+
+    def __init__(self):
+        super().__init__("C22", "C22.sync_do_unique")
+
+    def isfirst(self, i):
+        return self.first(self.key(z3.Select(self.v, i))) == i
+
+    def configure(self, I):
+        install_yield_ghost(I, "items")
+        install_auto_havoc(I)
+        c = self
+        self.key = z3.Function("key_of", Obj, Obj)
+        install_getters(I, key_fn=self.key)
+
+        def inv(ctx):
+            st, k = ctx.st, ctx.k
+            y = st.ghost["Y"]
+            seen = carried(ctx, "set", 1)[0]
+            dom = set_dom(st, seen)
+            x = z3.Const(fresh_name("x"), Obj)
+            i = z3.Int(fresh_name("i"))
+            fx = c.first(x)
+            return [
+                z3.ForAll([x], z3.Select(dom, x) == z3.And(0 <= fx, fx < k, c.key(z3.Select(c.v, fx)) == x)),
+                z3.And(y.n == c.rank(k), y.n >= 0),
+                z3.ForAll([i], z3.Implies(z3.And(0 <= i, i < k, c.isfirst(i)),
+                                          z3.And(0 <= c.rank(i), c.rank(i) < y.n, z3.Select(y.items, c.rank(i)) == z3.Select(c.v, i)))),
+            ]
+
+        I.loops[("sync_do_unique", 0)] = LoopSpec(inv, havoc=gen_havoc("items"), name="unique_loop")
+
+    def setup(self, I, st):
+        self.env = sym("environment", "obj")
+        self.value = A.alist(st, "value", "obj")
+        hv = st.get(self.value)
+        self.v, self.n = hv.arr, hv.n
+        self.cs = sym("case_sensitive", "bool")
+        self.attribute = sym("attribute", "obj")
+        self.first = z3.Function("first_index_of_key", Obj, I_)
+        self.rank = z3.Function("rank", I_, I_)
+        i = z3.Int("ui")
+        ki = self.key(z3.Select(self.v, i))
+        st.assume(z3.ForAll([i], z3.Implies(z3.And(0 <= i, i < self.n), z3.And(0 <= self.first(ki), self.first(ki) <= i,
+                                                                              self.key(z3.Select(self.v, self.first(ki))) == ki))))
+        st.assume(self.rank(0) == 0, z3.ForAll([i], z3.Implies(z3.And(0 <= i, i < self.n), self.rank(i + 1) == self.rank(i) + z3.If(self.isfirst(i), 1, 0))))
+        st.ghost["Y"] = Y.empty("items")
+        self.initial = {self.value.id}
+        return [self.env, self.value, self.cs, self.attribute], {}
+
+    def p_total(self, pre, out):
+        return out.returned
+
+    def p_getter(self, pre, out):
+        """key = the attribute (environment lookup rules), lower-cased unless case sensitive"""
+        ev = A.calls(out, "make_attrgetter")
+        if len(ev) != 1 or A.calls(out, "make_multi_attrgetter"):
+            return False
+        return getter_ok(ev[0].result, self.env, self.attribute, self.cs)
+
+    def p_first(self, pre, out):
+        """the yielded sequence is the subsequence of the items whose key did not occur earlier, in order"""
+        if out.raised:
+            return None
+        y = out.st.ghost["Y"]
+        i = z3.Int(fresh_name("i"))
+        return z3.And(
+            y.n == self.rank(self.n),
+            z3.ForAll([i], z3.Implies(z3.And(0 <= i, i < self.n, self.isfirst(i)),
+                                      z3.And(0 <= self.rank(i), self.rank(i) < y.n, z3.Select(y.items, self.rank(i)) == z3.Select(self.v, i)))))
+
+    def p_frame(self, pre, out):
+        return frame_ok(out, self.initial)
+
+    posts = [("raises_nothing", p_total), ("key_function", p_getter), ("first_occurrences_in_order", p_first), ("frame", p_frame)]
+
+    def concretize(self, model, pre, out):
+        n = max(0, min(12, model_value(model, self.n)))
+        names = {}
+        keys = []
+        for i in range(n):
+            t = str(model.eval(self.key(z3.Select(self.v, i)), model_completion=True))
+            keys.append(names.setdefault(t, len(names)))
+        return {"fn": "unique", "keys": keys, "case_sensitive": bool(model_value(model, self.cs.t))}
+
+    def cases(self):
+        for n in range(0, 6):
+            for keys in itertools.product(range(3), repeat=n):
+                for cs in (False, True):
+                    yield {"fn": "unique", "keys": list(keys), "case_sensitive": cs}
+
+    def run_case(self, w):
+        # items are distinct dicts; the key is looked up with attribute "a"; key class c is spelled "k<c>" (case
+        # sensitive) or alternately "k<c>" / "K<c>" (case insensitive: the same key up to case)
+        keys, cs = w["keys"], w["case_sensitive"]
+        env = jinja2.Environment()
+        items = [{"a": (f"k{c}" if cs or i % 2 == 0 else f"K{c}"), "i": i} for i, c in enumerate(keys)]
+        arg = list(items)
+        try:
+            got = list(F.sync_do_unique(env, arg, cs, "a"))
+        except Exception as ex:
+            return True, f"unique over keys {keys} raised {type(ex).__name__}: {ex}"
+        want = spec_unique(items, (lambda d: d["a"]) if cs else (lambda d: d["a"].lower()))
+        return ([d["i"] for d in got] != [d["i"] for d in want] or arg != items,
+                f"unique(attribute='a', case_sensitive={cs}) over keys {[d['a'] for d in items]}: real indices={[d['i'] for d in got]} spec={[d['i'] for d in want]}")
 
 
 def frame_ok(out, initial=None):
@@ -374,7 +921,1425 @@ def frame_ok(out, initial=None):
     return True
 
 
-TASKS = [Slice()]
+# ======================================================================================
+# relative proofs: thin wrappers over library functions / other filters
+# ======================================================================================
+
+from pyvc.ops import attr_fn, isinst_fn  # noqa: E402
+from pyvc.interp import InterpBase  # noqa: E402
+from pyvc import models as M_  # noqa: E402
+from jinja2.runtime import Undefined  # noqa: E402
+from jinja2.exceptions import FilterArgumentError  # noqa: E402
+from standins import c22_native as N  # noqa: E402
+
+TRUTHY = InterpBase.truthy_fn
+GI = z3.Function("environment.getitem", Obj, Obj, Obj)      # environment.getitem(item, part)
+APPLY = z3.Function("py_call1", Obj, Obj, Obj)              # f(x) for an opaque callable f
+ADD = z3.Function("py_add", Obj, Obj, Obj)                  # a + b on opaque values
+LOWER = z3.Function("ignore_case", Obj, Obj)                # jinja2.filters.ignore_case (own contract: IgnoreCase)
+HAS_IADD = z3.Function("type_defines___iadd__", Obj, z3.BoolSort())
+DATA_ATTRS = {"environment", "autoescape"}
+
+
+def same(a, b):
+    """the same value (identical object, or syntactically the same term)"""
+    if a is b:
+        return True
+    if isinstance(a, Sym) and isinstance(b, Sym):
+        return a.k == b.k and a.t.eq(b.t)
+    if isinstance(a, Ref) and isinstance(b, Ref):
+        return a == b
+    if isinstance(a, (tuple, list)) and isinstance(b, (tuple, list)) and type(a) is type(b):
+        return len(a) == len(b) and all(same(x, y) for x, y in zip(a, b))
+    if isinstance(a, (Sym, Ref)) or isinstance(b, (Sym, Ref)):
+        return False
+    try:
+        return type(a) is type(b) and a == b
+    except Exception:  # noqa
+        return False
+
+
+def install_opaque(I):
+    """Opaque (obj-kind) values: `environment` / `autoescape` are data attributes (functions of the object); any
+    other attribute is a method; environment.getitem is a function of (item, part); other method calls and
+    calls of opaque callables are recorded and return fresh values (f(x) with one argument: APPLY(f, x))."""
+
+    def getattr_obj(I_, st, args, kwargs, node):
+        o, name = args
+        if name in DATA_ATTRS:
+            return [(st, Sym(attr_fn(name)(o.t), "obj"))]
+        return [(st, BoundMethod(o, name))]
+
+    def scalar(x):
+        return isinstance(x, (Sym, Ref, str, int, bool)) or x is None
+
+    def method_obj(I_, st, args, kwargs, node):
+        recv, name, rest = args[0], args[1], list(args[2:])
+        if name == "getitem" and len(rest) == 2 and not kwargs and scalar(rest[0]) and scalar(rest[1]):
+            return [(st, Sym(GI(to_term(rest[0], "obj"), to_term(rest[1], "obj")), "obj"))]
+        v = fresh("m_" + name, "obj")
+        st.trace.append(Event("call", "method:" + name, [recv] + rest, kwargs, v, lineno=getattr(node, "lineno", None)))
+        return [(st, v)]
+
+    def call_obj(I_, st, args, kwargs, node):
+        fn, rest = args[0], list(args[1:])
+        if isinstance(fn, Sym) and len(rest) == 1 and not kwargs and scalar(rest[0]):
+            v = Sym(APPLY(fn.t, to_term(rest[0], "obj")), "obj")
+        else:
+            v = fresh("call", "obj")
+        st.trace.append(Event("call", "call_obj", [fn] + rest, kwargs, v, lineno=getattr(node, "lineno", None)))
+        return [(st, v)]
+
+    I.specs["getattr_obj"], I.specs["method_obj"], I.specs["call_obj"] = getattr_obj, method_obj, call_obj
+
+
+def lib(I, fn, name, returns="obj"):
+    """library function as a recorded abstract callee (its documented behaviour is the dependency spec)"""
+    I.specs[("fn", id(fn))] = A.abstract_fn(name, returns=returns)
+
+
+def repo_abstract(I, qual, name=None, returns="obj"):
+    I.specs[qual] = A.abstract_fn(name or qual.split(":")[-1], returns=returns)
+
+
+def install_ignore_case(I):
+    I.specs["jinja2.filters:ignore_case"] = lambda I_, st, args, kwargs, node: [(st, Sym(LOWER(to_term(args[0], "obj")), "obj"))]
+
+
+def install_enumerate(I):
+    """enumerate(list) over a list of known length; list * int with a concrete count"""
+    def h(I_, st, args, kwargs, node):
+        items = I_.iter_concrete(st, args[0], node)
+        return [(st, st.alloc(HIter([(i, x) for i, x in enumerate(items)], 0)))]
+    I.specs[("fn", id(enumerate))] = h
+    orig = I.seq_binop
+
+    def seq_binop(st, op, a, b, node):
+        if op is ast.Mult and isinstance(a, Ref) and isinstance(b, int) and not isinstance(b, bool):
+            h_ = st.get(a)
+            if isinstance(h_, HList) and h_.concrete:
+                return [(st, st.alloc(HList(items=list(h_.items) * b)))]
+        return orig(st, op, a, b, node)
+    I.seq_binop = seq_binop
+
+
+def install_async_utils(I):
+    """A7: await is transparent; async iteration over auto_aiter(x) yields the items of x in order;
+    auto_to_list(x) is a new list with the items of x; auto_await(x) is x."""
+    def as_iter(I_, st, args, kwargs, node):
+        x = args[0]
+        if isinstance(x, Ref) and isinstance(st.get(x), HList):
+            h = st.get(x)
+            st.trace.append(Event("read", f"{h.tag}.__iter__", [x], lineno=getattr(node, "lineno", None)))
+            return [(st, st.alloc(HIter(list(h.items) if h.concrete else SSeq(h.arr, h.n, h.k), 0, tag="aiter")))]
+        if isinstance(x, Ref) and isinstance(st.get(x), HIter):
+            return [(st, x)]
+        v = fresh("auto_aiter", "obj")
+        st.trace.append(Event("call", "auto_aiter", [x], {}, v, lineno=getattr(node, "lineno", None)))
+        return [(st, v)]
+
+    def to_list(I_, st, args, kwargs, node):
+        x = args[0]
+        if isinstance(x, Ref) and isinstance(st.get(x), (HList, HIter)):
+            rs = M_.instantiate(I_, st, list, [x], {}, node)
+            for s, v in rs:
+                s.trace.append(Event("call", "auto_to_list", [x], {}, v, lineno=getattr(node, "lineno", None)))
+            return rs
+        v = fresh("auto_to_list", "obj")
+        st.trace.append(Event("call", "auto_to_list", [x], {}, v, lineno=getattr(node, "lineno", None)))
+        return [(st, v)]
+
+    I.specs["jinja2.async_utils:auto_aiter"] = as_iter
+    I.specs["jinja2.async_utils:auto_to_list"] = to_list
+    I.specs["jinja2.async_utils:auto_await"] = lambda I_, st, args, kwargs, node: [(st, args[0])]
+    orig = I.call_method
+
+    def call_method(st, recv, name, args, kwargs, node=None):
+        if name == "__anext__" and isinstance(recv, Ref) and isinstance(st.get(recv), HIter):
+            out = []
+            for s, v in M_.iter_next(I, st, recv, node):
+                if isinstance(v, Raised) and v.exc.cls is StopIteration:
+                    v = Raised(Exc(StopAsyncIteration, (), origin=getattr(node, "lineno", None)))
+                out.append((s, v))
+            return out
+        return orig(st, recv, name, args, kwargs, node)
+
+    I.call_method = call_method
+
+
+def install_reversed(I):
+    """reversed(x): a list -> iterator over the reversed items; an iterator / a non-sequence -> TypeError"""
+    def h(I_, st, args, kwargs, node):
+        x = args[0]
+        if isinstance(x, Ref) and isinstance(st.get(x), HList) and not st.get(x).concrete:
+            hh = st.get(x)
+            st.trace.append(Event("read", f"{hh.tag}.__reversed__", [x], lineno=getattr(node, "lineno", None)))
+            return M_.builtin_reversed(I_, st, [SSeq(hh.arr, hh.n, hh.k)], {}, node)
+        if (isinstance(x, Ref) and isinstance(st.get(x), HIter)) or (isinstance(x, Sym) and x.k == "obj"):
+            return [(st, Raised(Exc(TypeError, ("object is not reversible",), origin=getattr(node, "lineno", None))))]
+        return M_.builtin_reversed(I_, st, args, kwargs, node)
+    I.specs[("fn", id(reversed))] = h
+
+    def lst(I_, st, args, kwargs, node):
+        if args and isinstance(args[0], Sym) and args[0].k == "obj":
+            return [(st, Raised(Exc(TypeError, ("object is not iterable",), origin=getattr(node, "lineno", None))))]
+        return M_.instantiate(I_, st, list, args, kwargs, node)
+    I.specs[("fn", id(list))] = lst
+
+
+def async_twin(wrapper):
+    """the `async def` behind an @async_variant wrapper (a cell of the wrapper's closure)"""
+    import inspect
+    for c in wrapper.__closure__ or ():
+        try:
+            f = c.cell_contents
+        except ValueError:
+            continue
+        if inspect.iscoroutinefunction(f) or inspect.isasyncgenfunction(f):
+            return f
+    raise LookupError(f"no async function behind {wrapper!r}")
+
+
+def list_eq(st, ref, arr, n):
+    """the list `ref` holds exactly arr[0..n)"""
+    a2, n2 = cur_list(st, ref)
+    j = z3.Int(fresh_name("j"))
+    return z3.And(n2 == n, z3.ForAll([j], z3.Implies(z3.And(0 <= j, j < n), z3.Select(a2, j) == z3.Select(arr, j))))
+
+
+class RelVC(GenVC):
+    """Contract on a live function object (`fn`); native oracle = the filter's entry in standins/c22_native.py."""
+    fn = None
+    fnname = ""          # filter name for the native oracle
+    sweep_size = 3
+
+    def __init__(self, name=None):
+        VC.__init__(self, "C22", name or f"C22.{self.fn.__name__}")
+
+    def closure(self, I):
+        return I.closure_of_function(self.fn)
+
+    def configure(self, I):
+        self.I = I
+        install_getters(I)
+        install_opaque(I)
+        install_ignore_case(I)
+        install_async_utils(I)
+        import typing
+        I.specs[("fn", id(typing.cast))] = lambda I_, st, args, kwargs, node: [(st, args[1])]  # typing.cast(t, v) is v
+
+    def cases(self):
+        if not self.fnname:
+            return
+        for w in N.ORACLES[N.FN2ORACLE[self.fnname]].cases(self.sweep_size):
+            if w["fn"] == self.fnname and self.want_case(w):
+                yield w
+
+    def want_case(self, w):
+        return True
+
+    def run_case(self, w):
+        if w.get("generic"):
+            return (False, "the failed obligation is structural (which library call is made with which arguments); no specific input")
+        return N.oracle_for(w).run(w)
+
+    def case_key(self, w):
+        if w.get("generic"):
+            return "generic"
+        return N.oracle_for(w).key(w)
+
+    def concretize(self, model, pre, out):
+        return {"fn": self.fnname, "generic": True}
+
+    def p_total(self, pre, out):
+        return out.returned
+
+    def p_frame(self, pre, out):
+        return frame_ok(out)
+
+    def only_calls(self, out, allowed):
+        """no recorded call other than the allowed names"""
+        return all(e.name in allowed for e in out.st.trace if e.kind == "call")
+
+
+def one(xs):
+    return xs[0] if len(xs) == 1 else None
+
+
+# ---- ignore_case ---------------------------------------------------------------------------------
+
+class IgnoreCase(RelVC):
+    """ignore_case(value): strings lower-cased, every other value returned as it is"""
+    fn = F.ignore_case
+
+    def __init__(self, what):
+        self.what = what
+        super().__init__(f"C22.ignore_case[{what}]")
+
+    def setup(self, I, st):
+        self.v = {"str": sym("value", "str"), "int": sym("value", "int"), "none": None, "tuple": ("a", 1)}[self.what]
+        return [self.v], {}
+
+    def p_result(self, pre, out):
+        if out.raised:
+            return False
+        if self.what == "str":
+            return isinstance(out.value, Sym) and out.value.k == "str" and out.value.t.eq(z3.Function("str.lower", z3.StringSort(), z3.StringSort())(self.v.t))
+        return out.value is self.v
+
+    posts = [("definition", p_result)]
+
+    def run_case(self, w):
+        bad = [x for x in ("aB", "", 1, None, ("A",)) if F.ignore_case(x) != (x.lower() if isinstance(x, str) else x)]
+        return bool(bad), f"ignore_case differs from its definition on {bad!r}"
+
+
+# ---- make_attrgetter / make_multi_attrgetter -------------------------------------------------------------
+
+def spec_parts(attribute):
+    """documented: dots separate attributes of attributes, integer parts are looked up as integers"""
+    if attribute is None:
+        return []
+    if isinstance(attribute, str):
+        return [int(p) if p.isdigit() else p for p in attribute.split(".")]
+    return [attribute]
+
+
+class ThenCall:
+    """the function under contract returns a callable: it is then applied to one generic item"""
+
+    def paths(self, I):
+        pre, outs = VC.paths(self, I)
+        self._pre = pre
+        self.item = sym("item", "obj")
+        from pyvc.contract import Outcome
+        res = []
+        for o in outs:
+            if o.raised:
+                res.append(o)
+                continue
+            self.made = o.value
+            for s, v in I.call(o.st, o.value, [self.item], {}):
+                res.append(Outcome(s, "raise", v.exc, len(res)) if isinstance(v, Raised) else Outcome(s, "return", v, len(res)))
+        for i, o in enumerate(res):
+            o.idx = i
+        return pre, res
+
+
+class AttrGetter(ThenCall, RelVC):
+    """make_attrgetter(environment, attribute, postprocess, default)(item) =
+    postprocess(fold over the parts of: item := D(environment.getitem(item, part))),  D(v) = default if default is
+    not None and v is Undefined else v"""
+    fn = F.make_attrgetter
+    ATTRS = [None, 3, "a", "a.b", "a.0.b", "0", "a1.2b"]
+
+    def __init__(self, attribute, with_pp):
+        self.attribute, self.with_pp = attribute, with_pp
+        super().__init__(f"C22.make_attrgetter[{attribute!r},postprocess={'yes' if with_pp else 'None'}]")
+
+    def configure(self, I):
+        RelVC.configure(self, I)
+        I.specs.pop("jinja2.filters:make_attrgetter")
+        I.inline.add("jinja2.filters:_prepare_attribute_parts")
+
+    def setup(self, I, st):
+        self.env = sym("environment", "obj")
+        self.pp = sym("postprocess", "obj") if self.with_pp else None
+        if self.with_pp:
+            st.assume(self.pp.t != NONE)
+        self.default = sym("default", "obj")
+        return [self.env, self.attribute, self.pp, self.default], {}
+
+    def p_result(self, pre, out):
+        if out.raised:
+            return False
+        cur = self.item.t
+        for part in spec_parts(self.attribute):
+            got = GI(cur, to_term(part, "obj"))
+            cur = z3.If(z3.And(self.default.t != NONE, isinst_fn(Undefined)(got)), self.default.t, got)
+        want = APPLY(self.pp.t, cur) if self.with_pp else cur
+        return to_term(out.value, "obj") == want
+
+    posts = [("lookup_chain", p_result), ("frame", RelVC.p_frame)]
+
+    def run_case(self, w):
+        env = jinja2.Environment()
+        obj = {"a": {"b": "AB", 0: {"b": "A0B"}}, 3: "three", "0": "zero-str", 0: "zero-int", "a1": {"2b": "X"}}
+        for attr in self.ATTRS:
+            g = F.make_attrgetter(env, attr, postprocess=(lambda v: ("pp", v)))
+            want = obj
+            for p in spec_parts(attr):
+                want = want[p]
+            if g(obj) != ("pp", want):
+                return True, f"make_attrgetter(env, {attr!r})(obj) = {g(obj)!r}, specification: {('pp', want)!r}"
+        g = F.make_attrgetter(env, "zz.b", default="D")
+        if g(obj) != "D" and not isinstance(g(obj), Undefined):
+            return True, "default handling differs"
+        return False, "attribute tables agree"
+
+
+class MultiAttrGetter(ThenCall, RelVC):
+    """make_multi_attrgetter(environment, 'a,b.c', postprocess)(item) = [postprocess(lookup(item, 'a')), postprocess(lookup(item, 'b.c'))]"""
+    fn = F.make_multi_attrgetter
+    ATTRS = [None, 3, "a", "a,b", "a.0,b", "a.b,c.1,d"]
+
+    def __init__(self, attribute, with_pp):
+        self.attribute, self.with_pp = attribute, with_pp
+        super().__init__(f"C22.make_multi_attrgetter[{attribute!r},postprocess={'yes' if with_pp else 'None'}]")
+
+    def configure(self, I):
+        RelVC.configure(self, I)
+        I.specs.pop("jinja2.filters:make_multi_attrgetter")
+        I.inline.add("jinja2.filters:_prepare_attribute_parts")
+        install_enumerate(I)
+
+    def setup(self, I, st):
+        self.env = sym("environment", "obj")
+        self.pp = sym("postprocess", "obj") if self.with_pp else None
+        if self.with_pp:
+            st.assume(self.pp.t != NONE)
+        return [self.env, self.attribute, self.pp], {}
+
+    def p_result(self, pre, out):
+        if out.raised or not isinstance(out.value, Ref):
+            return False
+        h = out.st.get(out.value)
+        if not (isinstance(h, HList) and h.concrete):
+            return False
+        split = self.attribute.split(",") if isinstance(self.attribute, str) else [self.attribute]
+        if len(h.items) != len(split):
+            return False
+        conj = []
+        for got, attr in zip(h.items, split):
+            cur = self.item.t
+            for part in spec_parts(attr):
+                cur = GI(cur, to_term(part, "obj"))
+            want = APPLY(self.pp.t, cur) if self.with_pp else cur
+            conj.append(to_term(got, "obj") == want)
+        return z3.And(*conj) if conj else True
+
+    posts = [("lookup_chains", p_result), ("frame", RelVC.p_frame)]
+
+    def run_case(self, w):
+        env = jinja2.Environment()
+        obj = {"a": {"b": "AB", 0: "A0"}, "b": "B", "c": {1: "C1"}, "d": "D", 3: "three"}
+        for attr in self.ATTRS:
+            g = F.make_multi_attrgetter(env, attr, postprocess=(lambda v: ("pp", v)))
+            want = []
+            for one_attr in (attr.split(",") if isinstance(attr, str) else [attr]):
+                v = obj
+                for p in spec_parts(one_attr):
+                    v = v[p]
+                want.append(("pp", v))
+            if g(obj) != want:
+                return True, f"make_multi_attrgetter(env, {attr!r})(obj) = {g(obj)!r}, specification: {want!r}"
+        return False, "attribute tables agree"
+
+
+# ---- sort / dictsort / groupby ------------------------------------------------------------------------------
+
+class Sort(RelVC):
+    """do_sort = sorted(value, key=<attributes, lower-cased unless case sensitive>, reverse=reverse); permutation,
+    order and stability are the dependency spec of `sorted`."""
+    fn = F.do_sort
+    fnname = "sort"
+
+    def configure(self, I):
+        RelVC.configure(self, I)
+        lib(I, sorted, "sorted")
+
+    def setup(self, I, st):
+        self.env, self.value, self.reverse = sym("environment", "obj"), sym("value", "obj"), sym("reverse", "obj")
+        self.cs, self.attribute = sym("case_sensitive", "bool"), sym("attribute", "obj")
+        return [self.env, self.value, self.reverse, self.cs, self.attribute], {}
+
+    def p_call(self, pre, out):
+        if out.raised:
+            return False
+        e = one(A.calls(out, "sorted"))
+        g = one(A.calls(out, "make_multi_attrgetter"))
+        if e is None or g is None or not self.only_calls(out, {"sorted", "make_multi_attrgetter"}):
+            return False
+        if not (same(list(e.args), [self.value]) and set(e.kwargs) == {"key", "reverse"} and same(e.kwargs["reverse"], self.reverse)
+                and e.kwargs["key"] is g.result and out.value is e.result):
+            return False
+        return getter_ok(g.result, self.env, self.attribute, self.cs)
+
+    posts = [("raises_nothing", RelVC.p_total), ("sorted_with_stated_key_and_reverse", p_call), ("frame", RelVC.p_frame)]
+
+
+class DictSort(RelVC):
+    """do_dictsort = sorted(value.items(), key=<item[0] or item[1], lower-cased unless case sensitive>, reverse=reverse);
+    any other `by` raises FilterArgumentError"""
+    fn = F.do_dictsort
+    fnname = "dictsort"
+
+    def __init__(self, by):
+        self.by = by
+        super().__init__(f"C22.do_dictsort[by={by}]")
+
+    def configure(self, I):
+        RelVC.configure(self, I)
+
+        def h(I_, st, args, kwargs, node):
+            keyf = kwargs.get("key")
+            a, b = fresh("probe_key", "obj"), fresh("probe_value", "obj")
+            rs = I_.call(st, keyf, [(a, b)], {}, node) if isinstance(keyf, Closure) else [(st, None)]
+            outs = []
+            for s, kv in rs:
+                if isinstance(kv, Raised):
+                    outs.append((s, kv))
+                    continue
+                v = fresh("sorted", "obj")
+                s.trace.append(Event("call", "sorted", args, kwargs, v, lineno=getattr(node, "lineno", None)))
+                s.ghost = dict(s.ghost)
+                s.ghost["probe"] = (a, b, kv)
+                outs.append((s, v))
+            return outs
+
+        I.specs[("fn", id(sorted))] = h
+
+    def setup(self, I, st):
+        self.value, self.reverse, self.cs = sym("value", "obj"), sym("reverse", "obj"), sym("case_sensitive", "bool")
+        return [self.value, self.cs, self.by, self.reverse], {}
+
+    def p_call(self, pre, out):
+        if self.by not in ("key", "value"):
+            return out.raised and out.value.cls is FilterArgumentError and not A.calls(out, "sorted")
+        if out.raised:
+            return False
+        e = one(A.calls(out, "sorted"))
+        it = one(A.calls(out, "method:items"))
+        if e is None or it is None or not self.only_calls(out, {"sorted", "method:items"}):
+            return False
+        if not (same(it.args[0], self.value) and len(it.args) == 1 and same(list(e.args), [it.result]) and set(e.kwargs) == {"key", "reverse"}
+                and same(e.kwargs["reverse"], self.reverse) and out.value is e.result):
+            return False
+        a, b, kv = out.st.ghost["probe"]
+        x = (a if self.by == "key" else b).t
+        return to_term(kv, "obj") == z3.If(self.cs.t, x, LOWER(x))
+
+    posts = [("sorted_items_with_stated_key_and_reverse", p_call), ("frame", RelVC.p_frame)]
+
+    def want_case(self, w):
+        return w["by"] == self.by or (self.by == "bogus" and w["by"] not in ("key", "value"))
+
+
+class GroupBy(RelVC):
+    """sync_do_groupby / async do_groupby relative to `sorted` and `itertools.groupby`:
+    groupby(sorted(value, key=K), K) with K = the attribute (default applied), lower-cased unless case sensitive; one
+    (grouper, list(group)) per group in order; the grouper is the group key, or - case-insensitive - the real
+    attribute value of the group's first item.  The number of groups is fixed per task (0..3); group sizes, items
+    and keys are symbolic."""
+    fnname = "groupby"
+    kind = "bounded"
+
+    def __init__(self, g, is_async):
+        self.g, self.is_async = g, is_async
+        self.fn = async_twin(F.do_groupby) if is_async else F.sync_do_groupby
+        self.bound_text = f"exactly {g} groups returned by itertools.groupby (group sizes, items, keys symbolic; real source)"
+        super().__init__(f"C22.{'async.do_groupby' if is_async else 'sync_do_groupby'}[groups={g}]")
+
+    def configure(self, I):
+        RelVC.configure(self, I)
+        lib(I, sorted, "sorted")
+        c = self
+
+        def gb(I_, st, args, kwargs, node):
+            groups = []
+            items = []
+            for j in range(c.g):
+                key = fresh(f"group_key{j}", "obj")
+                sq = A.sseq(st, f"group{j}", "obj")
+                st.assume(sq.n >= 1)  # dependency: groups are non-empty
+                it = st.alloc(HIter(sq, 0, tag="grouper"))
+                groups.append((key, sq))
+                items.append((key, it))
+            st.ghost = dict(st.ghost)
+            st.ghost["groups"] = tuple(groups)
+            v = st.alloc(HList(items=items))
+            st.trace.append(Event("call", "groupby", args, kwargs, v, lineno=getattr(node, "lineno", None)))
+            return [(st, v)]
+
+        I.specs[("fn", id(F.groupby))] = gb
+        I.specs[("fn", id(F._GroupTuple))] = lambda I_, st, args, kwargs, node: [(st, tuple(args))]
+
+    def setup(self, I, st):
+        self.env, self.value, self.attribute = sym("environment", "obj"), sym("value", "obj"), sym("attribute", "obj")
+        self.default, self.cs = sym("default", "obj"), sym("case_sensitive", "bool")
+        return [self.env, self.value, self.attribute, self.default, self.cs], {}
+
+    def p_calls(self, pre, out):
+        if out.raised:
+            return False
+        so, gb = one(A.calls(out, "sorted")), one(A.calls(out, "groupby"))
+        getters = A.calls(out, "make_attrgetter")
+        if so is None or gb is None or not getters:
+            return False
+        expr = getters[0].result
+        src = self.value
+        if self.is_async:
+            tl = [e for e in A.calls(out, "auto_to_list") if same(e.args[0], self.value)]
+            if len(tl) != 1:
+                return False
+            src = tl[0].result
+        if not (same(list(so.args), [src]) and set(so.kwargs) == {"key"} and so.kwargs["key"] is expr
+                and same(list(gb.args), [so.result, expr]) and not gb.kwargs):
+            return False
+        return getter_ok(expr, self.env, self.attribute, self.cs, default=self.default)
+
+    def p_groups(self, pre, out):
+        if out.raised or not isinstance(out.value, Ref):
+            return False
+        st = out.st
+        h = st.get(out.value)
+        if not (isinstance(h, HList) and h.concrete and len(h.items) == self.g):
+            return False
+        getters = A.calls(out, "make_attrgetter")
+        conj = []
+        seen = set()
+        for (key, sq), tup in zip(st.ghost["groups"], h.items):
+            if not (isinstance(tup, tuple) and len(tup) == 2 and isinstance(tup[1], Ref) and tup[1].id in st.allocated and tup[1].id not in seen):
+                return False
+            seen.add(tup[1].id)
+            conj.append(list_eq(st, tup[1], sq.arr, sq.n))
+            if len(getters) == 2:
+                outg = getters[1].result
+                ok = getter_ok(outg, self.env, self.attribute, default=self.default, postprocess=None)
+                if ok is not True:
+                    return False
+                shown = outg.fn(z3.Select(sq.arr, 0))
+            elif len(getters) == 1:
+                shown = None
+            else:
+                return False
+            conj.append(z3.If(self.cs.t, to_term(tup[0], "obj") == key.t,
+                              (to_term(tup[0], "obj") == shown) if shown is not None else z3.BoolVal(False)))
+        return z3.And(*conj) if conj else True
+
+    posts = [("raises_nothing", RelVC.p_total), ("groupby_of_sorted_with_stated_key", p_calls), ("groups_and_groupers", p_groups), ("frame", RelVC.p_frame)]
+
+    def want_case(self, w):
+        return (w.get("mode") != "sync") == self.is_async
+
+    def run(self, tier, seed):
+        rs = VC.run(self, tier, seed)
+        for r in rs:
+            r.kind = "bounded"
+            if r.status == "discharged":
+                r.status = "bounded-ok"
+        return rs
+
+
+# ---- min / max / sum / first / last / list / reverse / join ------------------------------------------------------
+
+def install_chain(I):
+    """itertools.chain([first], it): first, then the remaining items of the iterator `it` (dependency spec)"""
+    def h(I_, st, args, kwargs, node):
+        if len(args) == 2 and isinstance(args[0], Ref) and isinstance(args[1], Ref):
+            h0, h1 = st.get(args[0]), st.get(args[1])
+            if isinstance(h0, HList) and h0.concrete and len(h0.items) == 1 and isinstance(h1, HIter) and isinstance(h1.items, SSeq):
+                src, cur = h1.items, to_term(h1.cursor, "int")
+                arr = z3.Const(fresh_name("chain"), ArrObj)
+                n = 1 + src.n - cur
+                j = z3.Int(fresh_name("j"))
+                st.assume(z3.Select(arr, 0) == to_term(h0.items[0], "obj"),
+                          z3.ForAll([j], z3.Implies(z3.And(1 <= j, j < n), z3.Select(arr, j) == z3.Select(src.arr, cur + j - 1))))
+                h1.cursor = Sym(src.n, "int")
+                return [(st, st.alloc(HIter(SSeq(arr, n, "obj"), 0, tag="chain")))]
+        raise Unsupported("itertools.chain in another shape", node)
+    I.specs[("fn", id(F.chain))] = h
+
+
+class MinOrMax(RelVC):
+    """_min_or_max(environment, value, func, case_sensitive, attribute): empty -> environment.undefined(...);
+    otherwise func(<all items of value, in order>, key=<attribute, lower-cased unless case sensitive>)"""
+    fn = F._min_or_max
+    fnname = "min"
+
+    def configure(self, I):
+        RelVC.configure(self, I)
+        install_chain(I)
+
+    def setup(self, I, st):
+        self.env, self.func = sym("environment", "obj"), sym("func", "obj")
+        self.value = A.alist(st, "value", "obj")
+        hv = st.get(self.value)
+        self.v, self.n = hv.arr, hv.n
+        self.cs, self.attribute = sym("case_sensitive", "bool"), sym("attribute", "obj")
+        return [self.env, self.value, self.func, self.cs, self.attribute], {}
+
+    def p_result(self, pre, out):
+        if out.raised:
+            return False
+        und, call = A.calls(out, "method:undefined"), A.calls(out, "call_obj")
+        if und:
+            return z3.And(self.n == 0, len(und) == 1 and not call and same(und[0].args[0], self.env) and out.value is und[0].result)
+        e, g = one(call), one(A.calls(out, "make_attrgetter"))
+        if e is None or g is None:
+            return False
+        if not (same(e.args[0], self.func) and len(e.args) == 2 and set(e.kwargs) == {"key"} and e.kwargs["key"] is g.result and out.value is e.result):
+            return False
+        it = out.st.get(e.args[1]) if isinstance(e.args[1], Ref) else None
+        if not (isinstance(it, HIter) and isinstance(it.items, SSeq)):
+            return False
+        j = z3.Int(fresh_name("j"))
+        return z3.And(self.n > 0, it.items.n == self.n, to_term(it.cursor, "int") == 0,
+                      z3.ForAll([j], z3.Implies(z3.And(0 <= j, j < self.n), z3.Select(it.items.arr, j) == z3.Select(self.v, j))),
+                      getter_ok(g.result, self.env, self.attribute, self.cs))
+
+    posts = [("raises_nothing", RelVC.p_total), ("func_over_all_items_with_stated_key", p_result), ("frame", RelVC.p_frame)]
+
+    def cases(self):
+        for f in ("min", "max"):
+            for w in N.ORACLES["minmax"].cases(3):
+                if w["fn"] == f:
+                    yield w
+
+
+class MinMaxWrapper(RelVC):
+    """do_min / do_max = _min_or_max(environment, value, min / max, case_sensitive, attribute)"""
+
+    def __init__(self, which):
+        self.which, self.fn, self.fnname = which, {"min": F.do_min, "max": F.do_max}[which], which
+        super().__init__(f"C22.do_{which}")
+
+    def configure(self, I):
+        RelVC.configure(self, I)
+        repo_abstract(I, "jinja2.filters:_min_or_max")
+
+    def setup(self, I, st):
+        self.args = [sym("environment", "obj"), sym("value", "obj"), sym("case_sensitive", "obj"), sym("attribute", "obj")]
+        return list(self.args), {}
+
+    def p_call(self, pre, out):
+        e = one(A.calls(out, "_min_or_max"))
+        a = self.args
+        return (out.returned and e is not None and not e.kwargs and len(e.args) == 5 and same(e.args[0], a[0]) and same(e.args[1], a[1])
+                and e.args[2] is {"min": min, "max": max}[self.which] and same(e.args[3], a[2]) and same(e.args[4], a[3]) and out.value is e.result)
+
+    posts = [("delegates_to_min_or_max", p_call), ("frame", RelVC.p_frame)]
+
+
+class Sum(RelVC):
+    """sync_do_sum = sum(iterable, start), or sum(map(<attribute getter>, iterable), start) when an attribute is given"""
+    fn = F.sync_do_sum
+    fnname = "sum"
+
+    def configure(self, I):
+        RelVC.configure(self, I)
+        lib(I, sum, "sum")
+        lib(I, map, "map")
+
+    def setup(self, I, st):
+        self.env, self.iterable, self.attribute, self.start = sym("environment", "obj"), sym("iterable", "obj"), sym("attribute", "obj"), sym("start", "obj")
+        return [self.env, self.iterable, self.attribute, self.start], {}
+
+    def p_call(self, pre, out):
+        if out.raised:
+            return False
+        e = one(A.calls(out, "sum"))
+        if e is None or e.kwargs or len(e.args) != 2 or not same(e.args[1], self.start) or out.value is not e.result:
+            return False
+        m, g = A.calls(out, "map"), A.calls(out, "make_attrgetter")
+        if not m:
+            return z3.And(self.attribute.t == NONE, same(e.args[0], self.iterable) and not g)
+        if len(m) != 1 or len(g) != 1 or m[0].kwargs or not (len(m[0].args) == 2 and m[0].args[0] is g[0].result and same(m[0].args[1], self.iterable)):
+            return False
+        ok = getter_ok(g[0].result, self.env, self.attribute, postprocess=None)
+        return z3.And(self.attribute.t != NONE, ok and e.args[0] is m[0].result)
+
+    posts = [("sum_of_items_or_attributes_from_start", p_call), ("frame", RelVC.p_frame)]
+
+    def want_case(self, w):
+        return w.get("mode") == "sync"
+
+
+class First(RelVC):
+    """first item, or environment.undefined(...) for an empty sequence (sync and async)"""
+    fnname = "first"
+
+    def __init__(self, is_async):
+        self.is_async = is_async
+        self.fn = async_twin(F.do_first) if is_async else F.sync_do_first
+        super().__init__(f"C22.{'async.do_first' if is_async else 'sync_do_first'}")
+
+    def setup(self, I, st):
+        self.env = sym("environment", "obj")
+        self.value = A.alist(st, "seq", "obj")
+        hv = st.get(self.value)
+        self.v, self.n = hv.arr, hv.n
+        return [self.env, self.value], {}
+
+    def which(self):
+        return z3.Select(self.v, 0)
+
+    def p_result(self, pre, out):
+        if out.raised:
+            return False
+        und = A.calls(out, "method:undefined")
+        if und:
+            return z3.And(self.n == 0, len(und) == 1 and same(und[0].args[0], self.env) and out.value is und[0].result)
+        return z3.And(self.n > 0, to_term(out.value, "obj") == self.which())
+
+    posts = [("first_or_undefined", p_result), ("frame", RelVC.p_frame)]
+
+    def want_case(self, w):
+        return (w.get("mode") != "sync") == self.is_async
+
+
+class Last(First):
+    fnname = "last"
+
+    def __init__(self):
+        self.is_async = False
+        self.fn = F.do_last
+        RelVC.__init__(self, "C22.do_last")
+
+    def configure(self, I):
+        RelVC.configure(self, I)
+        install_reversed(I)
+
+    def which(self):
+        return z3.Select(self.v, self.n - 1)
+
+    def want_case(self, w):
+        return True
+
+    posts = [("last_or_undefined", First.p_result), ("frame", RelVC.p_frame)]
+
+
+class ListF(RelVC):
+    """sync_do_list(value) = list(value): a new list with the items of value in order"""
+    fn = F.sync_do_list
+    fnname = "list"
+
+    def setup(self, I, st):
+        self.value = A.alist(st, "value", "obj")
+        hv = st.get(self.value)
+        self.v, self.n = hv.arr, hv.n
+        return [self.value], {}
+
+    def p_result(self, pre, out):
+        if out.raised or not isinstance(out.value, Ref) or out.value == self.value or out.value.id not in out.st.allocated:
+            return False
+        return list_eq(out.st, out.value, self.v, self.n)
+
+    posts = [("new_list_same_items", p_result), ("frame", RelVC.p_frame)]
+
+
+class Reverse(RelVC):
+    """do_reverse: a string -> the reversed string; a list -> an iterator over it the other way round; an iterator
+    (not reversible) -> the reversed list of its items; not iterable -> FilterArgumentError"""
+    fn = F.do_reverse
+    fnname = "reverse"
+
+    def __init__(self, what):
+        self.what = what
+        super().__init__(f"C22.do_reverse[{what}]")
+
+    def configure(self, I):
+        RelVC.configure(self, I)
+        install_reversed(I)
+
+    def setup(self, I, st):
+        if self.what.startswith("str:"):
+            self.value = self.what[4:]
+            return [self.value], {}
+        if self.what == "opaque":
+            self.value = sym("value", "obj")
+            st.assume(z3.Not(isinst_fn(str)(self.value.t)))  # not a string, not reversible, not iterable
+            return [self.value], {}
+        lst = A.alist(st, "value", "obj")
+        hv = st.get(lst)
+        self.v, self.n = hv.arr, hv.n
+        self.value = lst if self.what == "list" else st.alloc(HIter(SSeq(hv.arr, hv.n, "obj"), 0, tag="generator"), initial=True)
+        return [self.value], {}
+
+    def p_result(self, pre, out):
+        if self.what.startswith("str:"):
+            return out.returned and out.value == "".join(reversed(self.value))
+        if self.what == "opaque":
+            return out.raised and out.value.cls is FilterArgumentError
+        if out.raised or not isinstance(out.value, Ref):
+            return False
+        h = out.st.get(out.value)
+        if self.what == "list":
+            if not (isinstance(h, HIter) and isinstance(h.items, SSeq)):
+                return False
+            arr, n = h.items.arr, h.items.n
+        else:
+            if not (isinstance(h, HList) and out.value.id in out.st.allocated):
+                return False
+            arr, n = cur_list(out.st, out.value)
+        j = z3.Int(fresh_name("j"))
+        return z3.And(n == self.n, z3.ForAll([j], z3.Implies(z3.And(0 <= j, j < self.n), z3.Select(arr, j) == z3.Select(self.v, self.n - 1 - j))))
+
+    posts = [("reversed", p_result), ("frame", RelVC.p_frame)]
+
+
+class JoinPlain(RelVC):
+    """sync_do_join without autoescape: str(d).join(map(str, X)), X = value or map(<attribute getter>, value)
+    (the autoescape branches are covered by the bounded stand-in)"""
+    fn = F.sync_do_join
+    fnname = "join"
+
+    def configure(self, I):
+        RelVC.configure(self, I)
+        lib(I, map, "map")
+        I.specs["str.join"] = A.abstract_fn("str.join", returns="str")
+
+    def setup(self, I, st):
+        self.ctx, self.value, self.d, self.attribute = sym("eval_ctx", "obj"), sym("value", "obj"), sym("d", "obj"), sym("attribute", "obj")
+        st.assume(z3.Not(TRUTHY(attr_fn("autoescape")(self.ctx.t))))
+        return [self.ctx, self.value, self.d, self.attribute], {}
+
+    def p_call(self, pre, out):
+        if out.raised:
+            return False
+        j = one(A.calls(out, "str.join"))
+        maps, g = A.calls(out, "map"), A.calls(out, "make_attrgetter")
+        if j is None or not maps or j.kwargs or len(j.args) != 2 or out.value is not j.result:
+            return False
+        last = maps[-1]
+        if not (j.args[1] is last.result and len(last.args) == 2 and last.args[0] is str and isinstance(j.args[0], Sym) and j.args[0].t.eq(M_.py_str_obj(self.d.t))):
+            return False
+        if len(maps) == 1:
+            return z3.And(self.attribute.t == NONE, same(last.args[1], self.value) and not g)
+        if len(maps) != 2 or len(g) != 1:
+            return False
+        first = maps[0]
+        if not (last.args[1] is first.result and len(first.args) == 2 and first.args[0] is g[0].result and same(first.args[1], self.value)):
+            return False
+        envt = Sym(attr_fn("environment")(self.ctx.t), "obj")
+        return z3.And(self.attribute.t != NONE, getter_ok(g[0].result, envt, self.attribute, postprocess=None))
+
+    posts = [("raises_nothing", RelVC.p_total), ("python_join_of_strings", p_call), ("frame", RelVC.p_frame)]
+
+    def want_case(self, w):
+        return w.get("mode") == "sync"
+
+
+# ---- map / select / reject -------------------------------------------------------------------------------
+
+class MapGen(RelVC):
+    """sync_do_map / async do_map: yields func(item) for every item in order, func = prepare_map(context, args, kwargs)"""
+    fnname = "map"
+    inv_labels = ("yields_so_far", "yield_values")
+
+    def __init__(self, is_async):
+        self.is_async = is_async
+        self.fn = async_twin(F.do_map) if is_async else F.sync_do_map
+        super().__init__(f"C22.{'async.do_map' if is_async else 'sync_do_map'}")
+
+    def configure(self, I):
+        RelVC.configure(self, I)
+        install_yield_ghost(I, "items")
+        install_auto_havoc(I)
+        c = self
+        c.key = z3.Function("prepared_func", Obj, Obj)
+
+        def pm(I_, st, args, kwargs, node):
+            g = Getter("prepare_map", {"args": list(args), "kwargs": kwargs}, c.key)
+            I_._getters.append(g)
+            st.trace.append(Event("call", "prepare_map", args, kwargs, g, lineno=getattr(node, "lineno", None)))
+            I_.specs[("fn", id(g))] = lambda I2, s, a, kw, n, g=g: [(s, Sym(g.fn(to_term(a[0], "obj")), "obj"))]
+            return [(st, g)]
+
+        I.specs["jinja2.filters:prepare_map"] = pm
+
+        def inv(ctx):
+            y = ctx.st.ghost["Y"]
+            i = z3.Int(fresh_name("i"))
+            return [y.n == ctx.k,
+                    z3.ForAll([i], z3.Implies(z3.And(0 <= i, i < ctx.k), z3.Select(y.items, i) == c.key(z3.Select(c.v, i))))]
+
+        I.loops[(self.fn.__qualname__, 0)] = LoopSpec(inv, havoc=gen_havoc("items"), name="map_loop")
+
+    def setup(self, I, st):
+        self.ctx = sym("context", "obj")
+        self.value = A.alist(st, "value", "obj")
+        hv = st.get(self.value)
+        self.v, self.n = hv.arr, hv.n
+        self.args = (sym("arg0", "obj"), sym("arg1", "obj"))
+        self.kwargs = st.alloc(HDict(items={"kw": sym("kw", "obj")}))
+        st.ghost["Y"] = Y.empty("items")
+        return "locals", {"context": self.ctx, "value": self.value, "args": self.args, "kwargs": self.kwargs}
+
+    def p_yields(self, pre, out):
+        if out.raised:
+            return False
+        y = out.st.ghost["Y"]
+        i = z3.Int(fresh_name("i"))
+        return z3.And(y.n == self.n, z3.ForAll([i], z3.Implies(z3.And(0 <= i, i < self.n), z3.Select(y.items, i) == self.key(z3.Select(self.v, i)))))
+
+    def p_prepared(self, pre, out):
+        if out.raised:
+            return False
+        pm = A.calls(out, "prepare_map")
+        if not pm:
+            return self.n == 0
+        return len(pm) == 1 and same(list(pm[0].args), [self.ctx, self.args, self.kwargs]) and not pm[0].kwargs
+
+    posts = [("yields_func_of_each_item_in_order", p_yields), ("func_from_prepare_map", p_prepared), ("frame", RelVC.p_frame)]
+
+    def want_case(self, w):
+        return (w.get("mode") != "sync") == self.is_async
+
+
+class SelectGen(RelVC):
+    """select_or_reject / async_select_or_reject: yields exactly the items with a true func(item), in order,
+    func = prepare_select_or_reject(context, args, kwargs, modfunc, lookup_attr).  rank(i) = number of selected
+    items among 0..i-1 (definition by recursion)."""
+    fnname = "select"
+    inv_labels = ("yield_count", "yields_are_the_selected_items")
+
+    def __init__(self, is_async):
+        self.is_async = is_async
+        self.fn = F.async_select_or_reject if is_async else F.select_or_reject
+        super().__init__(f"C22.{'async_select_or_reject' if is_async else 'select_or_reject'}")
+
+    def T(self, i):
+        return TRUTHY(self.key(z3.Select(self.v, i)))
+
+    def configure(self, I):
+        RelVC.configure(self, I)
+        install_yield_ghost(I, "items")
+        install_auto_havoc(I)
+        c = self
+        c.key = z3.Function("prepared_test", Obj, Obj)
+
+        def ps(I_, st, args, kwargs, node):
+            g = Getter("prepare_select_or_reject", {"args": list(args), "kwargs": kwargs}, c.key)
+            I_._getters.append(g)
+            st.trace.append(Event("call", "prepare_select_or_reject", args, kwargs, g, lineno=getattr(node, "lineno", None)))
+            I_.specs[("fn", id(g))] = lambda I2, s, a, kw, n, g=g: [(s, Sym(g.fn(to_term(a[0], "obj")), "obj"))]
+            return [(st, g)]
+
+        I.specs["jinja2.filters:prepare_select_or_reject"] = ps
+
+        def inv(ctx):
+            y, k = ctx.st.ghost["Y"], ctx.k
+            i = z3.Int(fresh_name("i"))
+            return [z3.And(y.n == c.rank(k), y.n >= 0),
+                    z3.ForAll([i], z3.Implies(z3.And(0 <= i, i < k, c.T(i)),
+                                              z3.And(0 <= c.rank(i), c.rank(i) < y.n, z3.Select(y.items, c.rank(i)) == z3.Select(c.v, i))))]
+
+        I.loops[(self.fn.__qualname__, 0)] = LoopSpec(inv, havoc=gen_havoc("items"), name="select_loop")
+
+    def setup(self, I, st):
+        self.ctx = sym("context", "obj")
+        self.value = A.alist(st, "value", "obj")
+        hv = st.get(self.value)
+        self.v, self.n = hv.arr, hv.n
+        self.args, self.kwargs = (sym("arg0", "obj"),), st.alloc(HDict(items={}), initial=True)
+        self.modfunc, self.lookup_attr = sym("modfunc", "obj"), sym("lookup_attr", "bool")
+        self.rank = z3.Function("rank_selected", I_, I_)
+        i = z3.Int("ri")
+        st.assume(self.rank(0) == 0, z3.ForAll([i], z3.Implies(z3.And(0 <= i, i < self.n), self.rank(i + 1) == self.rank(i) + z3.If(self.T(i), 1, 0))))
+        st.ghost["Y"] = Y.empty("items")
+        return [self.ctx, self.value, self.args, self.kwargs, self.modfunc, self.lookup_attr], {}
+
+    def p_yields(self, pre, out):
+        if out.raised:
+            return False
+        y = out.st.ghost["Y"]
+        i = z3.Int(fresh_name("i"))
+        return z3.And(y.n == self.rank(self.n),
+                      z3.ForAll([i], z3.Implies(z3.And(0 <= i, i < self.n, self.T(i)),
+                                                z3.And(0 <= self.rank(i), self.rank(i) < y.n, z3.Select(y.items, self.rank(i)) == z3.Select(self.v, i)))))
+
+    def p_prepared(self, pre, out):
+        if out.raised:
+            return False
+        ps = A.calls(out, "prepare_select_or_reject")
+        if not ps:
+            return self.n == 0
+        return len(ps) == 1 and same(list(ps[0].args), [self.ctx, self.args, self.kwargs, self.modfunc, self.lookup_attr]) and not ps[0].kwargs
+
+    posts = [("yields_the_selected_items_in_order", p_yields), ("test_from_prepare_select_or_reject", p_prepared), ("frame", RelVC.p_frame)]
+
+    def cases(self):
+        for w in N.ORACLES["mapselect"].cases(3):
+            if w["fn"] in ("select", "reject", "selectattr", "rejectattr") and (w.get("mode") != "sync") == self.is_async:
+                yield w
+
+
+class SelectWrapper(RelVC):
+    """sync_do_select / reject / selectattr / rejectattr and their async twins:
+    select_or_reject(context, value, args, kwargs, modfunc, lookup_attr) with modfunc = identity (select*) or `not`
+    (reject*), lookup_attr = True for the *attr filters"""
+
+    def __init__(self, which, is_async):
+        self.which, self.is_async, self.fnname = which, is_async, which
+        w = getattr(F, "do_" + which)
+        self.fn = async_twin(w) if is_async else getattr(F, "sync_do_" + which)
+        super().__init__(f"C22.{'async.do_' if is_async else 'sync_do_'}{which}")
+
+    def configure(self, I):
+        RelVC.configure(self, I)
+        repo_abstract(I, "jinja2.filters:select_or_reject")
+        repo_abstract(I, "jinja2.filters:async_select_or_reject")
+
+    def setup(self, I, st):
+        self.ctx, self.value = sym("context", "obj"), sym("value", "obj")
+        self.args = (sym("arg0", "obj"), sym("arg1", "obj"))
+        self.kwargs = st.alloc(HDict(items={"kw": sym("kw", "obj")}))
+        return "locals", {"context": self.ctx, "value": self.value, "args": self.args, "kwargs": self.kwargs}
+
+    def p_call(self, pre, out):
+        if out.raised:
+            return False
+        e = one(A.calls(out, "async_select_or_reject" if self.is_async else "select_or_reject"))
+        if e is None or e.kwargs or len(e.args) != 6 or out.value is not e.result or not self.only_calls(out, {e.name}):
+            return False
+        if not (same(list(e.args[:4]), [self.ctx, self.value, self.args, self.kwargs]) and e.args[5] is self.which.endswith("attr")):
+            return False
+        p = sym("probe", "obj")
+        rs = self.I.call(out.st.fork(), e.args[4], [p], {})
+        if len(rs) != 1 or isinstance(rs[0][1], Raised):
+            return False
+        r = rs[0][1]
+        if self.which.startswith("select"):
+            return r is p
+        return isinstance(r, Sym) and r.k == "bool" and z3.simplify(r.t).eq(z3.simplify(z3.Not(TRUTHY(p.t))))
+
+    posts = [("delegates_with_stated_modfunc_and_lookup", p_call), ("frame", RelVC.p_frame)]
+
+    def want_case(self, w):
+        return (w.get("mode") != "sync") == self.is_async
+
+
+class PrepareMap(ThenCall, RelVC):
+    """prepare_map(context, args, kwargs): attribute= (and default=) -> attribute getter of context.environment;
+    a filter name and its arguments -> item -> environment.call_filter(name, item, args, kwargs, context=context);
+    anything else -> FilterArgumentError"""
+    fn = F.prepare_map
+    fnname = "map"
+    SHAPES = ("attribute", "attribute_default", "attribute_extra", "nothing", "filter")
+
+    def __init__(self, shape):
+        self.shape = shape
+        super().__init__(f"C22.prepare_map[{shape}]")
+
+    def setup(self, I, st):
+        self.ctx = sym("context", "obj")
+        self.a, self.d, self.x = sym("attribute", "obj"), sym("default", "obj"), sym("x", "obj")
+        kw = {"attribute": {"attribute": self.a}, "attribute_default": {"attribute": self.a, "default": self.d},
+              "attribute_extra": {"attribute": self.a, "bogus": self.x}, "nothing": {}, "filter": {"k": self.x}}[self.shape]
+        self.args = (sym("name", "obj"), sym("a1", "obj"), sym("a2", "obj")) if self.shape == "filter" else ()
+        self.kwargs = st.alloc(HDict(items=dict(kw)))
+        return [self.ctx, self.args, self.kwargs], {}
+
+    def p_result(self, pre, out):
+        envt = Sym(attr_fn("environment")(self.ctx.t), "obj")
+        if self.shape in ("attribute_extra", "nothing"):
+            return out.raised and out.value.cls is FilterArgumentError
+        if out.raised:
+            return False
+        if self.shape in ("attribute", "attribute_default"):
+            g = one(A.calls(out, "make_attrgetter"))
+            if g is None or self.made is not g.result:
+                return False
+            ok = getter_ok(g.result, envt, self.a, postprocess=None, default=(self.d if self.shape == "attribute_default" else None))
+            return ok and to_term(out.value, "obj").eq(g.result.fn(self.item.t))
+        e = one(A.calls(out, "method:call_filter"))
+        if e is None or out.value is not e.result or len(e.args) != 5 or set(e.kwargs) != {"context"}:
+            return False
+        kw = out.st.get(e.args[4]) if isinstance(e.args[4], Ref) else None
+        return (same(e.args[0], envt) and same(e.args[1], self.args[0]) and same(e.args[2], self.item) and same(e.args[3], self.args[1:])
+                and isinstance(kw, HDict) and kw.concrete and list(kw.items) == ["k"] and same(kw.items["k"], self.x) and same(e.kwargs["context"], self.ctx))
+
+    posts = [("prepared_function", p_result)]
+
+
+class PrepareSelect(ThenCall, RelVC):
+    """prepare_select_or_reject(context, args, kwargs, modfunc, lookup_attr)(item) =
+    modfunc(test(subject)), subject = item or (lookup_attr) the attribute args[0] of item; test = bool when no test
+    name is given, else environment.call_test(name, subject, rest, kwargs, context)"""
+    fn = F.prepare_select_or_reject
+    fnname = "select"
+
+    def __init__(self, lookup_attr, nargs):
+        self.lookup_attr, self.nargs = lookup_attr, nargs
+        super().__init__(f"C22.prepare_select_or_reject[lookup_attr={lookup_attr},args={nargs}]")
+
+    def setup(self, I, st):
+        self.ctx, self.modfunc = sym("context", "obj"), sym("modfunc", "obj")
+        self.args = tuple(sym(f"a{i}", "obj") for i in range(self.nargs))
+        self.kwargs = st.alloc(HDict(items={"k": sym("kwv", "obj")}))
+        return [self.ctx, self.args, self.kwargs, self.modfunc, self.lookup_attr], {}
+
+    def p_result(self, pre, out):
+        envt = Sym(attr_fn("environment")(self.ctx.t), "obj")
+        off = 1 if self.lookup_attr else 0
+        if self.lookup_attr and self.nargs == 0:
+            return out.raised and out.value.cls is FilterArgumentError
+        if out.raised:
+            return False
+        subject = self.item.t
+        if self.lookup_attr:
+            g = one(A.calls(out, "make_attrgetter"))
+            if g is None or getter_ok(g.result, envt, self.args[0], postprocess=None) is not True:
+                return False
+            subject = g.result.fn(self.item.t)
+        elif A.calls(out, "make_attrgetter"):
+            return False
+        tests = A.calls(out, "method:call_test")
+        if self.nargs > off:
+            e = one(tests)
+            if e is None or e.kwargs or len(e.args) != 6:
+                return False
+            if not (same(e.args[0], envt) and same(e.args[1], self.args[off]) and to_term(e.args[2], "obj").eq(subject)
+                    and same(e.args[3], self.args[off + 1:]) and same(e.args[4], self.kwargs) and same(e.args[5], self.ctx)):
+                return False
+            tested = to_term(e.result, "obj")
+        else:
+            if tests:
+                return False
+            from pyvc.smt import bool2obj
+            tested = bool2obj(TRUTHY(subject))
+        return to_term(out.value, "obj") == APPLY(self.modfunc.t, tested)
+
+    posts = [("prepared_test", p_result)]
+
+
+# ---- async twins that delegate to the sync filter ------------------------------------------------------------------
+
+class AsyncDelegate(RelVC):
+    """async do_slice / do_unique / do_join / do_list: the sync filter applied to auto_to_list(value) with the other
+    arguments unchanged (do_list: auto_to_list(value) itself); nothing is written"""
+    TABLE = {
+        "slice": ("sync_do_slice", ["value", "slices", "fill_with"], 0),
+        "unique": ("sync_do_unique", ["environment", "value", "case_sensitive", "attribute"], 1),
+        "join": ("sync_do_join", ["eval_ctx", "value", "d", "attribute"], 1),
+        "list": (None, ["value"], 0),
+    }
+
+    def __init__(self, which):
+        self.which, self.fnname = which, which
+        self.fn = async_twin(getattr(F, "do_" + which))
+        super().__init__(f"C22.async.do_{which}")
+
+    def configure(self, I):
+        RelVC.configure(self, I)
+        sync = self.TABLE[self.which][0]
+        if sync:
+            repo_abstract(I, f"jinja2.filters:{sync}")
+
+    def setup(self, I, st):
+        sync, params, self.vpos = self.TABLE[self.which]
+        self.params = [sym(p, "obj") for p in params]
+        return list(self.params), {}
+
+    def p_call(self, pre, out):
+        if out.raised:
+            return False
+        sync = self.TABLE[self.which][0]
+        tl = one(A.calls(out, "auto_to_list"))
+        if tl is None or not same(list(tl.args), [self.params[self.vpos]]):
+            return False
+        if sync is None:
+            return out.value is tl.result and self.only_calls(out, {"auto_to_list"})
+        e = one(A.calls(out, sync))
+        want = list(self.params)
+        want[self.vpos] = tl.result
+        return e is not None and not e.kwargs and same(list(e.args), want) and out.value is e.result and self.only_calls(out, {"auto_to_list", sync})
+
+    posts = [("same_as_sync_filter_on_the_collected_list", p_call), ("frame", RelVC.p_frame)]
+
+    def want_case(self, w):
+        return w.get("mode") != "sync"
+
+
+class AsyncSum(RelVC):
+    """async do_sum: start + f(v0) + f(v1) + ... (left fold, = sum(map(f, iterable), start)), f = identity or the
+    attribute getter; the `start` argument (like every argument) is not modified in place."""
+    fnname = "sum"
+    inv_labels = ("partial_sum", "no_inplace_update_of_an_argument")
+
+    def __init__(self, with_attr):
+        self.with_attr = with_attr
+        self.fn = async_twin(F.do_sum)
+        super().__init__(f"C22.async.do_sum[{'attribute' if with_attr else 'items'}]")
+
+    def f(self, x):
+        return self.key(x) if self.with_attr else x
+
+    def configure(self, I):
+        RelVC.configure(self, I)
+        install_auto_havoc(I)
+        c = self
+        c.key = z3.Function("attr_of", Obj, Obj)
+        install_getters(I, key_fn=c.key)
+
+        def iadd(I_, st, args, kwargs, node):
+            cur, rhs = args
+            if isinstance(cur, Sym) and cur.k == "obj" and not isinstance(rhs, (Ref, tuple, SSeq)):
+                # `a += b`: the value of a + b; performed in place when type(a) defines __iadd__ (dependency: data model)
+                st.trace.append(Event("write", "iadd", [cur, rhs], lineno=getattr(node, "lineno", None)))
+                return [(st, Sym(ADD(cur.t, to_term(rhs, "obj")), "obj"))]
+            return None
+
+        def add(I_, st, args, kwargs, node):
+            a, b = args
+            return [(st, Sym(ADD(to_term(a, "obj"), to_term(b, "obj")), "obj"))]
+
+        I.specs[("augassign", ast.Add)] = iadd
+        I.specs[("binop", ast.Add)] = add
+
+        def inv(ctx):
+            rv = one(carried(ctx, "obj", 1))
+            conj = []
+            for e in ctx.st.trace:
+                if e.kind == "write" and e.name == "iadd":
+                    conj.append(z3.Not(z3.And(e.args[0].t == c.start.t, HAS_IADD(c.start.t))))
+            return [to_term(rv, "obj") == c.fold(ctx.k), z3.And(*conj) if conj else True]
+
+        I.loops[(self.fn.__qualname__, 0)] = LoopSpec(inv, havoc=gen_havoc(None), name="sum_loop")
+
+    def setup(self, I, st):
+        self.env, self.start = sym("environment", "obj"), sym("start", "obj")
+        self.iterable = A.alist(st, "iterable", "obj")
+        hv = st.get(self.iterable)
+        self.v, self.n = hv.arr, hv.n
+        self.attribute = sym("attribute", "obj") if self.with_attr else None
+        if self.with_attr:
+            st.assume(self.attribute.t != NONE)
+        self.arguments = [self.start, self.env] + ([self.attribute] if self.with_attr else [])
+        self.fold = z3.Function("partial_sum", I_, Obj)
+        i = z3.Int("fi")
+        x, y = z3.Consts("ax ay", Obj)
+        # dependency (data model): for a type with in-place addition, a + b is a new object, never the `start` argument
+        st.assume(z3.ForAll([x, y], z3.Implies(HAS_IADD(self.start.t), ADD(x, y) != self.start.t)))
+        st.assume(self.fold(0) == self.start.t,
+                  z3.ForAll([i], z3.Implies(z3.And(0 <= i, i < self.n), self.fold(i + 1) == ADD(self.fold(i), self.f(z3.Select(self.v, i))))))
+        return [self.env, self.iterable, self.attribute, self.start], {}
+
+    def p_result(self, pre, out):
+        if out.raised:
+            return False
+        g = A.calls(out, "make_attrgetter")
+        if self.with_attr:
+            if len(g) != 1 or getter_ok(g[0].result, self.env, self.attribute, postprocess=None) is not True:
+                return False
+        elif g:
+            return False
+        return to_term(out.value, "obj") == self.fold(self.n)
+
+    posts = [("left_fold_from_start", p_result), ("frame", RelVC.p_frame)]
+
+    def concretize(self, model, pre, out):
+        n = max(1, min(3, model_value(model, self.n)))
+        mutable = model_value(model, HAS_IADD(self.start.t)) is True
+        if mutable:
+            return {"fn": "sum", "vals": [[1]] * n, "start": [9], "shape": "lists", "mode": "async"}
+        return {"fn": "sum", "vals": [1] * n, "start": 5, "shape": "attr" if self.with_attr else "plain", "mode": "async"}
+
+    def want_case(self, w):
+        return w.get("mode") != "sync" and (w["shape"] == "lists" or (w["shape"] == "attr") == self.with_attr)
+
+
+# ======================================================================================
+# tables and bounded stand-ins
+# ======================================================================================
+
+def table_registry(task, tier, seed):
+    """FILTERS maps the documented names to the functions under contract; every async twin is registered through
+    async_variant with its sync function; length / count are the builtin len."""
+    rs = []
+    want = {"batch": F.do_batch, "slice": F.do_slice, "unique": F.do_unique, "groupby": F.do_groupby, "sort": F.do_sort, "dictsort": F.do_dictsort,
+            "min": F.do_min, "max": F.do_max, "sum": F.do_sum, "first": F.do_first, "last": F.do_last, "join": F.do_join, "list": F.do_list,
+            "reverse": F.do_reverse, "map": F.do_map, "select": F.do_select, "reject": F.do_reject, "selectattr": F.do_selectattr,
+            "rejectattr": F.do_rejectattr, "length": len, "count": len}
+    for name, fn in sorted(want.items()):
+        ok = F.FILTERS.get(name) is fn
+        rs.append(Res(f"C22.FILTERS[{name}]", "discharged" if ok else "refuted", "table", 0, "" if ok else f"FILTERS[{name!r}] is {F.FILTERS.get(name)!r}", "table",
+                      {"fn": "table", "name": name}))
+    twins = {"slice": F.sync_do_slice, "unique": F.sync_do_unique, "groupby": F.sync_do_groupby, "sum": F.sync_do_sum, "first": F.sync_do_first,
+             "join": F.sync_do_join, "list": F.sync_do_list, "map": F.sync_do_map, "select": F.sync_do_select, "reject": F.sync_do_reject,
+             "selectattr": F.sync_do_selectattr, "rejectattr": F.sync_do_rejectattr}
+    for name, sync in sorted(twins.items()):
+        w = getattr(F, "do_" + name)
+        cells = [c.cell_contents for c in (w.__closure__ or ())]
+        ok = getattr(w, "jinja_async_variant", False) is True and any(c is sync for c in cells) and w.__wrapped__ is sync
+        try:
+            ok = ok and async_twin(w).__name__ == "do_" + name
+        except LookupError:
+            ok = False
+        rs.append(Res(f"C22.async_variant[{name}]", "discharged" if ok else "refuted", "table", 0, "" if ok else f"do_{name} is not async_variant(sync_do_{name})", "table",
+                      {"fn": "table", "name": name}))
+    return rs
+
+
+def replay_table(w):
+    rs = table_registry(None, "quick", 0)
+    bad = [r for r in rs if r.status != "discharged" and (r.witness or {}).get("name") == w.get("name")]
+    return (bool(bad), bad[0].detail if bad else "registry agrees")
+
+
+class Bounded(Native, FnTask):
+    """Bounded stand-in: the REAL filter through Environment.call_filter (sync environment, async environment, async
+    environment with an async generator as input) on every small input against the executable specification;
+    arguments compared with a deep copy afterwards.  Never reported as proved."""
+
+    def __init__(self, oname):
+        self.oname = oname
+        FnTask.__init__(self, "C22", f"C22.bounded.{oname}", None, "bounded", None)
+        self.bound_text = (f"filter group `{oname}`: all input sequences up to length 7 over a 3-letter alphabet (fewer for structured items) x the "
+                           "argument combinations listed in standins/c22_native.py, in a sync and an async environment")
+
+    def run(self, tier, seed):
+        import time
+        o = N.ORACLES[self.oname]
+        t0 = time.time()
+        n, bad = 0, {}
+        for w in o.cases(7):
+            n += 1
+            try:
+                v, d = o.run(w)
+            except Exception as ex:  # noqa
+                v, d = True, f"oracle crashed on {w}: {type(ex).__name__}: {ex}"
+            if v:
+                k = o.key(w)
+                bad.setdefault(k if not k.startswith("other:") else "other", (w, d, k))
+        self.stats = {"cases": n, "seconds": round(time.time() - t0, 2)}
+        rs = [Res(f"C22.bounded.{self.oname}", "bounded-ok" if not bad else "refuted", "native", time.time() - t0,
+                  f"{n} cases agree with the specification" if not bad else "", "bounded", None)]
+        if bad:
+            rs = []
+            for kk, (w, d, k) in bad.items():
+                rs.append(Res(f"C22.bounded.{self.oname}", "refuted", "native", time.time() - t0, d[:500], "bounded", w))
+        return rs
+
+    def run_case(self, w):
+        return N.oracle_for(w).run(w)
+
+    def case_key(self, w):
+        return N.oracle_for(w).key(w)
+
+    def replay(self, w):
+        return self.run_case(w)
+
+
+TASKS = (
+    [Slice(), Batch(), Unique()]
+    + [IgnoreCase(w) for w in ("str", "int", "none", "tuple")]
+    + [AttrGetter(a, pp) for a in AttrGetter.ATTRS for pp in (False, True)]
+    + [MultiAttrGetter(a, pp) for a in MultiAttrGetter.ATTRS for pp in (False, True)]
+    + [Sort()] + [DictSort(by) for by in ("key", "value", "bogus")]
+    + [GroupBy(g, a) for a in (False, True) for g in (0, 1, 2, 3)]
+    + [MinOrMax(), MinMaxWrapper("min"), MinMaxWrapper("max"), Sum(), First(False), First(True), Last(), ListF()]
+    + [Reverse(w) for w in ("str:", "str:a", "str:abC", "list", "generator", "opaque")]
+    + [JoinPlain(), MapGen(False), MapGen(True), SelectGen(False), SelectGen(True)]
+    + [SelectWrapper(w, a) for w in ("select", "reject", "selectattr", "rejectattr") for a in (False, True)]
+    + [PrepareMap(s) for s in PrepareMap.SHAPES]
+    + [PrepareSelect(la, n) for la in (False, True) for n in (0, 1, 2, 3)]
+    + [AsyncDelegate(w) for w in ("slice", "unique", "join", "list")]
+    + [AsyncSum(False), AsyncSum(True)]
+    + [FnTask("C22", "C22.tables", table_registry, "table", replay_table)]
+    + [Bounded(o) for o in N.ORACLES]
+)
 
 META = {
     "level": "proof",
